@@ -103,7 +103,7 @@ type c18Pair struct {
 // parameter, it is replaced by the argument at every static call site of fd (transitively, to depth 3).
 // This follows an "extract function" that wraps the unmarshal call in a helper.
 func c18BindPair(c *c18Ctx, fd *ast.FuncDecl, a, b ast.Expr, depth int) []c18Pair {
-	ia, ib := c18ParamOf(c.info, fd, a), c18ParamOf(c.info, fd, b)
+	ia, ib := c18ParamOf(c.info, fd, c18PeelConv(c.info, a)), c18ParamOf(c.info, fd, b)
 	if (ia < 0 && ib < 0) || depth <= 0 {
 		return []c18Pair{{a: a, b: b}}
 	}
@@ -123,6 +123,21 @@ func c18BindPair(c *c18Ctx, fd *ast.FuncDecl, a, b ast.Expr, depth int) []c18Pai
 		}
 	}
 	return out
+}
+
+// c18PeelConv strips conversions between string and byte-slice types: `[]byte(data)`, `string(b)`.
+func c18PeelConv(info *types.Info, e ast.Expr) ast.Expr {
+	for {
+		e = ast.Unparen(e)
+		conv, ok := e.(*ast.CallExpr)
+		if !ok || len(conv.Args) != 1 {
+			return e
+		}
+		if tv, ok := info.Types[conv.Fun]; !ok || !tv.IsType() {
+			return e
+		}
+		e = conv.Args[0]
+	}
 }
 
 func c18FindLiteral(c *c18Ctx) (*c18Lit, string) {
@@ -156,25 +171,27 @@ func c18FindLiteral(c *c18Ctx) (*c18Lit, string) {
 		return nil, fmt.Sprintf("expected exactly one json.Unmarshal whose target is &%s or a local slice of its type (directly or through a helper's parameter) in package osm, found %d", c.table.Name(), len(found))
 	}
 	l := found[0]
-	e := ast.Unparen(firsts[0])
+	// the bytes: a constant string, possibly behind conversions, a package variable initialised from one, and
+	// the parameters the call sites above have already been resolved through
+	e := c18PeelConv(c.info, firsts[0])
 	if v, ok := objOf(c.info, e).(*types.Var); ok && v.Parent() == c.pk.Types.Scope() {
 		l.srcVar = v
-		e = c18VarInit(c.pk, v)
-		if e == nil {
+		init := c18VarInit(c.pk, v)
+		if init == nil {
 			return nil, "the byte variable " + v.Name() + " has no initialiser"
 		}
-		e = ast.Unparen(e)
+		e = c18PeelConv(c.info, init)
 	}
-	// []byte(<constant string>)
-	if conv, ok := e.(*ast.CallExpr); ok && len(conv.Args) == 1 {
-		if tv, ok := c.info.Types[conv.Fun]; ok && tv.IsType() {
-			if s, ok := constString(c.info, conv.Args[0]); ok {
-				l.text, l.expr = s, conv.Args[0]
-				return l, ""
+	if s, ok := constString(c.info, e); ok {
+		l.text, l.expr = s, e
+		if k, isConst := objOf(c.info, e).(*types.Const); isConst { // diagnostics point into the declaration
+			if init := c18VarInit(c.pk, k); init != nil {
+				l.expr = ast.Unparen(init)
 			}
 		}
+		return l, ""
 	}
-	return nil, "the first argument of json.Unmarshal is not `[]byte(<constant string>)` or a package variable initialised that way"
+	return nil, "the first argument of json.Unmarshal is not a constant string (possibly converted to []byte, held in a package variable, or passed through helper parameters)"
 }
 
 type c18Entry struct {
